@@ -345,6 +345,7 @@ func ruleCmd(c *Ctx) {
 			})
 		}
 
+		b.commandOptionsAndFiles(l, lab, fns)
 		// (ii) stdout ownership + (v) exits only on error edges
 		nOut := 0
 		for _, fn := range fns {
